@@ -50,21 +50,15 @@ class LarkLikeRef(gram.Ref):
             self._after[p] = got
         return got
 
-    def _sel(self, ends_eng):
-        if not self.engine_prefixes:
-            return gram.Ref._sel(self, ends_eng)
-        raise NotImplementedError
-
     def tok(self, item, i):
         if not self.engine_prefixes:
             return gram.Ref.tok(self, item, i)
         # exactly what xearley.scan explores: the engine's match, then the engine's match on every proper prefix of it
-        saved = self._sel
-        self._sel = lambda ends_eng: ends_eng[0]
+        self.mode, saved = 'exact', self.mode
         try:
             cands = gram.Ref.tok(self, item, i)
         finally:
-            self._sel = saved
+            self.mode = saved
         if not cands: return []
         if item[0] == 't':
             pat = self.terms.by_name[item[1]]['pat']
